@@ -17,7 +17,7 @@ class SkipRule(Exception):
 
 
 # rules that interpret function bodies on thousands of inputs, each implemented by a dedicated entry function (run_rule / run_*_rule) of a helper module
-SLOW_RULES = {'C02-R13', 'C02-R14', 'C02-R15', 'C02-R16', 'C02-R17', 'C02-R18', 'C09-R8', 'C09-R9', 'C04-R7', 'C12-R6', 'C12-R7', 'C08-R6', 'C01-R7', 'C02-R19', 'C11-R8'}
+SLOW_RULES = {'C10-R11', 'C09-R10', 'C02-R13', 'C02-R14', 'C02-R15', 'C02-R16', 'C02-R17', 'C02-R18', 'C09-R8', 'C09-R9', 'C04-R7', 'C12-R6', 'C12-R7', 'C08-R6', 'C01-R7', 'C02-R19', 'C11-R8'}
 
 
 def guard_entry_points(modules):
@@ -38,6 +38,61 @@ def guard_entry_points(modules):
                         w._guarded = True
                         return w
                     setattr(mod, name, make(fn))
+
+
+_IN_CHILD = False
+
+
+def parallel_entry_points(modules):
+    """run_rule / run_*_rule of the helper modules (the interpretive rules: seconds to minutes each, independent of one another) run in forked children;
+    Result.join() collects their rules.  XV_JOBS=1 keeps everything in one process."""
+    import functools, pickle, traceback
+    for mod in modules:
+        for name in dir(mod):
+            if name == 'run_rule' or (name.startswith('run_') and name.endswith('_rule')):
+                fn = getattr(mod, name)
+                if callable(fn) and not getattr(fn, '_forked', False):
+                    def make(f, label):
+                        @functools.wraps(f)
+                        def w(res, facts, *a, **k):
+                            global _IN_CHILD
+                            if _IN_CHILD or not isinstance(res, Result):
+                                return f(res, facts, *a, **k)
+                            while len(res._pending) - res._reaped >= res.jobs:
+                                res._reap_one()
+                            rfd, wfd = os.pipe()
+                            pid = os.fork()
+                            if pid:
+                                if os.environ.get('XV_TIMING'):
+                                    print('[xv] %6.1fs fork %s' % (time.time() - res.t0, label), flush=True)
+                                os.close(wfd)
+                                res._pending.append([pid, rfd, label, None])
+                                return None
+                            os.close(rfd)
+                            _IN_CHILD = True
+                            out = None
+                            try:
+                                facts._fh = {}
+                                res.rules, res.assumptions, res.trusted, res.broken, res.extra = [], [], [], [], {}
+                                try:
+                                    f(res, facts, *a, **k)
+                                except SkipRule:
+                                    pass
+                                for r in res.rules:
+                                    r.res = None
+                                out = ('ok', res.rules, res.assumptions, res.trusted, res.broken, res.extra)
+                            except AnalysisBroken as e:
+                                out = ('broken', str(e))
+                            except BaseException:
+                                out = ('error', traceback.format_exc())
+                            try:
+                                with os.fdopen(wfd, 'wb') as fh:
+                                    pickle.dump(out, fh)
+                            finally:
+                                os._exit(0)
+                        w._forked = True
+                        return w
+                    setattr(mod, name, make(fn, '%s.%s' % (mod.__name__.split('.')[-1], name)))
 
 
 class Rule:
@@ -66,6 +121,53 @@ class Result:
         self.prop = prop; self.tier = tier; self.rules = []; self.t0 = time.time()
         self.assumptions = []; self.extra = {}; self.trusted = []
         self.broken = []
+        self._pending = []; self._reaped = 0
+        try:
+            self.jobs = max(1, int(os.environ.get('XV_JOBS', '') or (os.cpu_count() or 4)))
+        except ValueError:
+            self.jobs = 4
+
+    def _reap_one(self):
+        """wait for the oldest child not yet collected"""
+        import pickle
+        for p in self._pending:
+            if p[3] is None:
+                pid, rfd, label = p[0], p[1], p[2]
+                with os.fdopen(rfd, 'rb') as fh:
+                    data = fh.read()
+                os.waitpid(pid, 0)
+                try:
+                    p[3] = pickle.loads(data)
+                except Exception:
+                    p[3] = ('error', 'no result from the child running %s (%d bytes)' % (label, len(data)))
+                self._reaped += 1
+                if os.environ.get('XV_TIMING'):
+                    print('[xv] %6.1fs done %s' % (time.time() - self.t0, label), flush=True)
+                return
+
+    def join(self):
+        """collect the rules of the forked entry points, in launch order"""
+        while self._reaped < len(self._pending):
+            self._reap_one()
+        pend, self._pending, self._reaped = self._pending, [], 0
+        errors = []
+        for pid, rfd, label, out in pend:
+            if out[0] == 'ok':
+                _, rules, assumptions, trusted, broken, extra = out
+                for r in rules:
+                    r.res = self
+                    self.rules.append(r)
+                for s2 in assumptions:
+                    self.assume(s2)
+                self.trusted += [t for t in trusted if t not in self.trusted]
+                self.broken += broken
+                self.extra.update(extra)
+            elif out[0] == 'broken':
+                errors.append(out[1])
+            else:
+                errors.append('internal error in %s: %s' % (label, out[1][-1500:]))
+        if errors:
+            raise AnalysisBroken('; '.join(errors))
 
     def rule(self, rid, clause, floor=1):
         focus = os.environ.get('XV_FOCUS_RULE')
@@ -81,6 +183,11 @@ class Result:
             self.assumptions.append(s)
 
     def finish(self, facts=None, selftest=None):
+        if self._pending:
+            try:
+                self.join()
+            except AnalysisBroken as e:
+                self.broken.append(str(e))
         known = load_known()
         kn = [k for k in known.get('known', []) if k['property'] == self.prop]
         lines = []
@@ -152,5 +259,6 @@ class Result:
         if self.broken:
             for b in self.broken:
                 print('ANALYSIS-BROKEN property=%s %s' % (self.prop, b))
-            return 2
+            # a violation found by one rule stands even if another rule could not be decided
+            return 1 if new_viol else 2
         return 1 if new_viol else 0
